@@ -4,7 +4,12 @@ from props import base, shardprop
 
 PROP = "C04"
 PROPS_V = "theories/Props/C04.v"
-THEOREMS = []
+THEOREMS = ["C04_membership", "C04_membership_rows", "C04_order_within_tier", "C04_mem_flow_order_refuted",
+            "C04_mem_flow_order_outside_known", "C04_seg_then_mem_append_order", "C04_seg_then_mem_refuted",
+            "C04_seg_then_mem_outside_known", "C04_fanin_order_refuted", "C04_append_order_outside_known",
+            "C04_append_order_example", "C04_stable_merge_keeps_order",
+            "C04_order_if_stable", "C04_compaction_order_refuted", "C04_tiers_example", "C04_seg_then_mem_example",
+            "C04_compaction_example"]
 RULE = ("engine histories on one shard in which a few contexts span the active memtable, passive buffers, several L0 "
         "segments and compacted segments (STORE/FLUSH/compaction rounds/restart); every observation issues the typed "
         "REPLAY for each (type, context) and each REPLAY is repeated to sample schedules; non-trivial = some context "
@@ -13,8 +18,12 @@ ASSUMPTIONS = ["the scheduling of the in-memory and on-disk result streams is sa
                "one shard"]
 TRUSTED = ["Coq 8.16.1 kernel + coqc", "extraction (ExtrOcamlBasic) + ocaml/p_shard.ml",
            "engine harness vharn life + tools/engine.py + tools/shardlib.py", "hooks in /repo under cfg(sneldb_verif)"]
-CLAIMED = False
-MANIFEST = {}
+CLAIMED = True
+MANIFEST = {
+ "level_text": "Theorems over the shard state machine Model/Shard.v and Model/Compaction.v (all crash-free label histories, any interleaving of STORE, manual FLUSH, WAL-thread steps and flush-worker stage labels, any number of queued rotations, any capacity; unique event ids assumed). The typed REPLAY of a context is an arbitrary interleaving of the memory flow and the segment flow, de-duplicated by event id. Proved: membership (every interleaving, de-duplicated, is a permutation of exactly the context's events of the type); order inside the tiers (the segment flow, every directory, the active memtable, every passive copy, and the passive copies followed by the active memtable are subsequences of the append order: flush_order is a stable sort by context and level-0 directories are created in rotation order; inductive order invariant on top of the C03 invariant); the sequential composition segments, passive copies, active memtable, de-duplicated, is EXACTLY the append order at every reachable state (the minimal repair). Refuted with witnesses and proved outside the class: the memory flow reads the active memtable before the passive copies (ActiveBeforePassive: 2,1); the fan-in may emit in-memory events before older on-disk ones (MemtableAndSegmentFlowsInterleave: 4,1,3); outside both classes every schedule returns exactly the append order. Compaction: the model's merge is stable, so for any 'appended before' relation sorted inputs listed in label order give a sorted output, and after any batch the policy can produce (batch_ok, inputs then in label order) the output directory holds the context's events in append order (C04_order_if_stable); refuted on the model: the output directory is listed after newer level-0 directories, the segment flow after a compaction is 3,1,2 (CompactionScramblesContextOrder). The models are validated against the engine by trace validation of hooked runs; REPLAY sequences are compared with the model's set of interleavings, as multisets after a compaction.",
+ "design_ref": "DESIGN.md \u00a76 C04",
+ "level_note": "Trusted: Coq kernel; ExtrOcamlBasic extraction + ocaml/p_shard.ml; the engine harness, tools/engine.py, tools/shardlib.py (trace -> label mapping); hooks under cfg(sneldb_verif). Not covered by the theorems: histories with crash/restart; the schedule of the two result streams (any interleaving is allowed); the implementation's arbitrary tie order between compaction inputs (outside the model, compared as multisets); the order of the segment flow after a compaction beyond the output directory; the wildcard (untyped) REPLAY; more than one shard. Unique event ids are a hypothesis (C18)."
+}
 
 
 def corpus():
